@@ -22,7 +22,7 @@ import corr  # noqa
 import progcommon as P  # noqa
 from lib import f32, f2h  # noqa
 
-MODULES = ["InovesaModel.Props.C17", "InovesaModel.Props.TieKick", "InovesaModel.Props.TieEF", "InovesaModel.Props.TieFactory", "InovesaModel.Props.TieKickSafe", "InovesaModel.Props.TieEFSafe", "InovesaModel.Props.TieFPApply"]
+MODULES = ["InovesaModel.Props.C17", "InovesaModel.Props.TieKick", "InovesaModel.Props.TieEF", "InovesaModel.Props.TieFactory", "InovesaModel.Props.TieKickSafe", "InovesaModel.Props.TieEFSafe", "InovesaModel.Props.TieFPApply", "InovesaModel.Props.TieH5Shapes"]
 LEVEL = "proof"
 
 C_LIGHT = 2.99792458e8
